@@ -1,6 +1,6 @@
 (* C19 - Service and eventgroup matching obeys the wildcard laws.
    This file contains only statements; proofs live in Proofs/C19Proofs.v. *)
-From PS Require Import Lib.Base Generated.Consts Model.SdTypes Model.Config Spec.C19Spec Proofs.C19Proofs.
+From PS Require Import Lib.Base Generated.Consts Model.SdTypes Model.Config Spec.C19Spec Proofs.C19Proofs Generated.LogicGen Proofs.GenEquiv.
 
 (* ids compared exactly, the other fields exactly unless the wildcard side carries the wildcard *)
 Theorem C19_exact_offer : forall s e, e_type e = ET_OfferService -> matches_offer s e = Ok (spec_offer s e).
@@ -61,6 +61,12 @@ Theorem C19_for_service_spec : forall g s,
   then Some (mkEg (g_sid g) (s_iid s) (s_maj s) (g_id g) (g_sock g) (g_proto g)) else None.
 Proof. exact for_service_spec. Qed.
 
+(* tie to the source: the model functions ARE the Python functions, translated from the source text on every run *)
+Theorem C19_model_is_the_translated_source :
+  (forall s e, gen_matches_offer s e = matches_offer s e) /\ (forall s e, gen_matches_find s e = matches_find s e)
+  /\ (forall s e, gen_matches_subscribe s e = matches_subscribe s e) /\ (forall a b, gen_matches_service a b = matches_service a b).
+Proof. exact (conj gen_matches_offer_eq (conj gen_matches_find_eq (conj gen_matches_subscribe_eq gen_matches_service_eq))). Qed.
+
 Print Assumptions C19_exact_offer.
 Print Assumptions C19_exact_find.
 Print Assumptions C19_exact_subscribe.
@@ -78,3 +84,4 @@ Print Assumptions C19_subscribe_own_entry.
 Print Assumptions C19_offer_roundtrip.
 Print Assumptions C19_for_service.
 Print Assumptions C19_for_service_spec.
+Print Assumptions C19_model_is_the_translated_source.
